@@ -240,3 +240,13 @@ Ltac redc := cbn [cnt p_claim p_dtor p_res p_walk p_dtk p_park p_xw p_rel p_c0 p
 Ltac redch := cbn [cnt p_claim p_dtor p_res p_walk p_dtk p_park p_xw p_rel p_c0 p_c1 p_c2 isv rn on p_cvA p_cvB p_cvC p_cvP p_cvD p_ow p_oc p_cvR p_cvW p_otk p_bad negb orb andb
                   b2n rdy sub Nat.add] in *|-.
 
+
+(* the instruction set in three groups: the step lemma is proved per thread and per group (nine files that build in parallel) *)
+Definition gA (i : instr) : bool :=
+  match i with IPriv _ | IPark _ | IRel | IXWait | IClaim _ | IDtorP | IResolve | IWalk => true | _ => false end.
+Definition gB (i : instr) : bool :=
+  match i with IReady | ISub _ | ICvClaim | ICvDtor | IOWait | IOClaim => true | _ => false end.
+Definition gC (i : instr) : bool :=
+  match i with ICvReady | ICvSet _ | ICvPark _ | ICvResolve | ICvWalk | IOReady | IOSub _ => true | _ => false end.
+Lemma groups_cover i : gA i = true \/ gB i = true \/ gC i = true.
+Proof. destruct i; cbn; auto. Qed.
